@@ -165,6 +165,12 @@ func (c *ChunkComposer) RunLoop(reader io.Reader, cb OnCompleteMessage) error {
 			}
 		}
 
+		// 对端在一个message还没有接收完时，用新的包头把message的长度改得比已经收到的部分还小。
+		// 必须在计算neededSize之前检查，否则下面的无符号减法会回绕，按peerChunkSize（对端可以设成4G）去申请内存
+		if stream.msg.Len() > stream.header.MsgLen {
+			return base.NewErrRtmpShortBuffer(int(stream.header.MsgLen), int(stream.msg.Len()), "len of msg bigger than msg len of header")
+		}
+
 		var neededSize uint32
 		if stream.header.MsgLen <= c.peerChunkSize && stream.msg.Len() == 0 {
 			neededSize = stream.header.MsgLen
